@@ -218,7 +218,10 @@ class Machine2:
         raise Unsupported('display of %r'%(v,))
     def call_closure(self, f, args):
         f0=deref(f)
-        if isinstance(f0,tuple) and f0[0]=='item': return self.call(f0[1],args)
+        if isinstance(f0,tuple) and f0[0]=='item':
+            segs=f0[1].split('::')
+            if len(segs)>=2 and segs[-2] in ENUMS and segs[-1] in ENUMS[segs[-2]]: return Adt(segs[-2],ENUMS[segs[-2]].index(segs[-1]),list(args))
+            return self.call(f0[1],args)
         if isinstance(f0,Adt) and f0.name.startswith('{closure'):
             b=self.closures[re.search(r'\{closure@[^}]*\}',f0.name).group()]
             env = Ref([f0],0) if b.arg_types[0].startswith('&') else f0
@@ -255,6 +258,7 @@ class Machine2:
                 self.steps+=1
                 if st[0]=='assign': self.place_ref(fr,st[1]).set(self.rvalue(fr,st[2]))
                 elif st[0]=='nop': pass
+                elif st[0]=='setdiscr': self.place_ref(fr,st[1]).get().variant=st[2]
                 else: raise Unsupported('stmt '+st[0])
             t=blk['term']; k=t[0]
             if k=='goto': bb=t[1]
